@@ -11,6 +11,12 @@ REPO = os.environ.get("PYVC_REPO", "/repo")
 NATIVE_PY = "/venv/bin/python"
 
 PLANS = {
+    "C16": {
+        "level": "proof",
+        "sidecars": ["ligand"],
+        "extras": [],
+        "explanation": "equilibrate: per-cycle conservation invariant on symmetric multigraph shapes, name-independence",
+    },
     "C17": {
         "level": "proof",
         "sidecars": ["psize"],
